@@ -10,7 +10,8 @@ import os
 import sys
 
 sys.path.insert(0, os.path.join(os.path.dirname(os.path.abspath(__file__)), '..'))
-from common import Check
+from common import Check, coq_make
+from props import t_C14
 from harness import enga
 from harness import gen_drivers as gd
 
@@ -216,7 +217,16 @@ def main():
                'thorough tier) with 12 calls and over all cycled size sequences in {1,2,3}^L, random beyond (up to 40 calls); '
                'distinct = distinct configuration; non-trivial = at least one refill after construction')
     ck.step_hygiene()
-    proved = ck.step_prove('P_C14')
+    # regenerate coq/gen/Gen_C14.v from BatchGenerator's source (fail-closed translator), then re-check the theorems,
+    # among them the equality of the generated step functions with the model
+    ok, info = t_C14.setup_generate()
+    ck.extra['generated'] = {k: info.get(k) for k in ('lines', 'loop', 'changed')} if ok else None
+    if ok:
+        proved = ck.step_prove('P_C14')
+    else:
+        ck.broke('translator-refusal', f'Gen_C14:{info.get("target")}', info['error'])
+        proved = False
+    model_ok = proved or coq_make(['model/Batch.vo'])[0]      # the correspondence needs the model only
     torch = enga.import_repo()
     from neurodiffeq import generators as G
     SpyLeaf = gd.make_leaf_class(torch, G.BaseGenerator)
@@ -230,7 +240,7 @@ def main():
             ok = oracle(ck, cfg, out)
             ck.add_case(cfg_key(cfg))
             ck.sample({'replayed': cfg, 'oracle_ok': ok, 'batches': out['batches'][:4]})
-            bad = ck.step_cases('replay', PREAMBLE, [coq_case(cfg, out)]) if not out['error'] else []
+            bad = ck.step_cases('replay', PREAMBLE, [coq_case(cfg, out)]) if (not out['error'] and model_ok) else []
             for lbl in bad:
                 ck.broke('correspondence-broken', 'cases:replay', f'model and implementation differ on {lbl}')
         ck.extra['input_distribution'] = {'replay': 1}
@@ -254,7 +264,7 @@ def main():
                                    '(Coq correspondence on all of them in the thorough tier, one dims per pair in quick); '
                                    'varying size sequences {1,2,3}^%d x batch 1..%d completely' % ((5, 6) if th else (3, 5)))
 
-    if proved:
+    if model_ok:
         bad = ck.step_cases('corr', PREAMBLE, cases, shard=120)
         for lbl in bad[:2]:
             cfg = json.loads(lbl)
@@ -279,8 +289,10 @@ def main():
     ck.finish(trusted_extra=TRUSTED, assumptions=ASSUME)
 
 
-TRUSTED = ['coq/model/Batch.v is a hand-written model of BatchGenerator.__init__/get_examples (read line by line; tied to the code by '
-           'the in-kernel correspondence cases and the implementation-level oracle on every run)',
+TRUSTED = ['coq/model/Batch.v is a hand-written model of BatchGenerator.__init__/get_examples; coq/gen/Gen_C14.v is regenerated from the '
+           'source on every run by the fail-closed translator tools/props/t_C14.py + tools/harness/gen_pyast.py and PROVED equal to the model '
+           '(C14_gen_*); the translator and coq/model/PySem.v (meaning of the accepted Python/torch operations) are trusted, and tied to '
+           'the running code by the in-kernel correspondence cases and the implementation-level oracle on every run',
            'modelled not verified: torch.cat = list append, x[:n] / x[n:] = firstn / skipn, len(x) = length',
            'tools/harness/gen_drivers.py (spying leaves, canonicalisation to integer columns)']
 ASSUME = ['the underlying generator returns one vector per dimension, all of one length per draw (wf_cols), at least one dimension',
